@@ -101,7 +101,7 @@ func vc_C16_interval_overlap() {
 func vfUnionPrune(n int, blend int) {
 	vfTimeouts(3000, 20000)
 	if !vfSymbolic() {
-		vfUnionRects(n) // native replay: only the public-API stage exists natively
+		vfUnionAbstractNative(n) // native replay of the abstract stage: boxes realising the model's intervals
 		return
 	}
 	var ops []SDF2
@@ -146,15 +146,35 @@ func vfUnionPrune(n int, blend int) {
 		if vfProved(vfNearF(fast, slow), "Union2D pruned == exhaustive over abstract operands") {
 			return
 		}
-		// stage 2 (only when stage 1 finds a model, which cannot be replayed because the contract
-		// stub does not exist natively): the same question for n axis-aligned rectangles through the
-		// public API and the real MinMaxDist2, whose models replay.
-		vfStub("(github.com/deadsy/sdfx/sdf.Box2).MinMaxDist2", func(b Box2, q v2.Vec) Interval { return b.MinMaxDist2(q) })
-		vfUnionRects(n)
+		// stage 2 (only when stage 1 finds a model): the model is reported; natively it is replayed
+		// with scripted operands whose boxes realise the model's intervals under the real MinMaxDist2.
+		vfAssert(vfNearF(fast, slow), vfAbstractMsg)
 	} else {
 		vfAssert(vfIff(fast < 0, slow < 0), "Union2D pruned evaluation agrees with exhaustive evaluation on inside/outside (blend function)")
 	}
 }
+
+// vfUnionAbstractNative: native counterpart of the abstract stage. Operand i is
+// a scripted leaf (returns the model's values) whose box realises the model's
+// interval [lo_i, hi_i] for the query point (0,0) under the real MinMaxDist2:
+// x in [sqrt(lo), sqrt(lo)], y in [-sqrt(hi-lo), sqrt(hi-lo)].
+func vfUnionAbstractNative(n int) {
+	var ops []SDF2
+	for i := 0; i < n; i++ {
+		lo, hi := vfRealN("box.lo", i), vfRealN("box.hi", i)
+		x, y := math.Sqrt(lo), math.Sqrt(math.Max(hi-lo, 0))
+		bb := Box2{Min: v2.Vec{X: x, Y: -y}, Max: v2.Vec{X: x, Y: y}}
+		if lo == 0 {
+			bb = Box2{Min: v2.Vec{X: 0, Y: 0}, Max: v2.Vec{X: math.Sqrt(hi), Y: 0}}
+		}
+		ops = append(ops, &vfLeaf2{name: "op" + string(rune('0'+i)), bb: bb})
+	}
+	u := Union2D(ops...).(*UnionSDF2)
+	p := v2.Vec{}
+	vfAssert(vfNearF(u.Evaluate(p), u.EvaluateSlow(p)), vfAbstractMsg)
+}
+
+const vfAbstractMsg = "Union2D pruned evaluation returns the value of exhaustive evaluation (default minimum, abstract operands with arbitrary box intervals)"
 
 func vfUnionRects(n int) {
 	{
@@ -177,6 +197,9 @@ func vfUnionRects(n int) {
 func vc_C16_union2d_prune() {
 	vfUnionPrune(2+vfCase("n", 3), 0)
 }
+
+// thorough: the same question for two axis-aligned rectangles through the public API and the real MinMaxDist2
+func vt_C16_union2d_rects() { vfUnionRects(2) }
 
 func vt_C16_union2d_prune_n5() {
 	vfUnionPrune(5, 0)
